@@ -17,17 +17,24 @@ import cfg
 
 
 class St:
-    __slots__ = ('inv', 'touched', 'ub', 'hexp', 'lexp', 'pend')
+    __slots__ = ('inv', 'touched', 'ub', 'hexp', 'lexp', 'pend', 'nn')
 
-    def __init__(self, inv=True, touched=False, ub=None, hexp=None, lexp=None, pend=None):
+    def __init__(self, inv=True, touched=False, ub=None, hexp=None, lexp=None, pend=None, nn=frozenset()):
         self.inv, self.touched, self.ub, self.hexp, self.lexp, self.pend = inv, touched, dict(ub or {}), hexp, lexp, pend
+        self.nn = frozenset(nn)      # locals known to be >= 0
 
     def copy(self):
-        return St(self.inv, self.touched, self.ub, self.hexp, self.lexp, self.pend)
+        return St(self.inv, self.touched, self.ub, self.hexp, self.lexp, self.pend, self.nn)
 
     def key(self):
         return (self.inv, self.touched, tuple(sorted((k, tuple(sorted(v))) for k, v in self.ub.items())), self.hexp, self.lexp,
-                self.pend)
+                self.pend, tuple(sorted(self.nn)))
+
+
+def leq(q, p):
+    """affine bound q <= p for all HI >= LO"""
+    d = (p[0] - q[0], p[1] - q[1], p[2] - q[2])
+    return d[0] == -d[1] and d[0] >= 0 and d[2] >= 0
 
 
 def join(a, b):
@@ -37,11 +44,12 @@ def join(a, b):
         return a.copy()
     ub = {}
     for k in set(a.ub) & set(b.ub):
-        s = a.ub[k] & b.ub[k]
+        # a bound survives when the other side has a bound at least as tight (x<=0 on one path, x<=HI-LO on the other)
+        s = {p for p in (a.ub[k] | b.ub[k]) if any(leq(q, p) for q in a.ub[k]) and any(leq(q, p) for q in b.ub[k])}
         if s:
-            ub[k] = s
+            ub[k] = frozenset(s)
     return St(a.inv and b.inv, a.touched or b.touched, ub, a.hexp if a.hexp == b.hexp else None,
-              a.lexp if a.lexp == b.lexp else None, a.pend if a.pend == b.pend else None)
+              a.lexp if a.lexp == b.lexp else None, a.pend if a.pend == b.pend else None, a.nn & b.nn)
 
 
 class PairInv:
@@ -52,6 +60,7 @@ class PairInv:
         self.nonneg, self.is_hs = nonneg, is_hs
         self.problems = []     # (eid, message)
         self.stores = 0
+        self.amount_nn = {}    # store eid -> the amount added / subtracted is >= 0 on every path
 
     # -- expressions ------------------------------------------------------------------------------------
     def fld(self, e):
@@ -146,6 +155,28 @@ class PairInv:
             return a & b
         return set()
 
+    def is_nn(self, st, e):
+        """e >= 0 in this state: a constant, a local known non-negative, HI-LO (+ a non-negative constant) while the
+        invariant holds, shifts of those, or what K4 proved"""
+        F = self.F
+        e = F.strip_casts(e)
+        nd = F.ex[e]
+        if nd['k'] == 'int':
+            return nd['v'] >= 0
+        if nd['k'] == 'ref' and nd['decl'].get('id') in st.nn:
+            return True
+        x = self.exact(e)
+        if x is not None and st.inv and x[0] == -x[1] and x[0] >= 0 and x[2] >= 0:
+            return True
+        if nd['k'] == 'bin' and nd['op'] in ('>>', '<<'):
+            return self.is_nn(st, nd['c'][0])
+        if nd['k'] == 'bin' and nd['op'] in ('+', '*'):
+            if self.is_nn(st, nd['c'][0]) and self.is_nn(st, nd['c'][1]):
+                return True
+        if nd['k'] == 'assign' and nd['op'] == '=':
+            return self.is_nn(st, nd['c'][1])
+        return bool(self.nonneg(e))
+
     def within_window(self, st, e):
         """is e <= HI-LO (given LO <= HI)"""
         for p in self.ubs(st, e):
@@ -195,6 +226,11 @@ class PairInv:
                     st.ub[vid] = frozenset(b)
                 else:
                     st.ub.pop(vid, None)
+                if (op == '=' and self.is_nn(st, rhs)) or (op in ('>>=', '<<=', '+=', '*=') and vid in st.nn and
+                                                            (op in ('>>=', '<<=') or self.is_nn(st, rhs))):
+                    st.nn = st.nn | {vid}
+                else:
+                    st.nn = st.nn - {vid}
                 # a local that names a stored value may change: forget texts that mention it
                 nm = F.s(l)
                 if st.hexp and nm in st.hexp:
@@ -204,6 +240,8 @@ class PairInv:
             return
         self.stores += 1
         st.touched = True
+        if op in ('+=', '-='):
+            self.amount_nn[e] = self.amount_nn.get(e, True) and self.is_nn(st, rhs)
         txt = F.s(F.strip_casts(rhs))
         if op == '=':
             ok = False
@@ -219,6 +257,8 @@ class PairInv:
                 else:
                     st.lexp = txt
                 if st.hexp is not None and st.hexp == st.lexp:
+                    ok = True
+                elif f == 'H' and st.lexp == '0' and self.nonneg(F.strip_casts(rhs)):
                     ok = True
                 elif f == 'H' and st.lexp is not None:
                     r = F.ex[F.strip_casts(rhs)]
@@ -241,22 +281,20 @@ class PairInv:
         if op in ('+=', '-='):
             shrink = (f == 'H' and op == '-=') or (f == 'L' and op == '+=')
             key = (op, txt)
-            if st.pend is not None and st.pend[0] != f and st.pend[1:] == key:
+            if st.pend is not None and st.pend[0] != f and st.pend[1:3] == key:
                 # the same shift applied to the other field: the difference is what it was
-                st.inv = st.pend_inv
+                st.inv = st.pend[3]
                 st.pend = None
             elif shrink:
                 if not (st.inv and self.within_window(st, rhs)):
                     if st.inv:
                         self.problems.append((e, f'{F.s(e)}: the amount is not bounded by {self.hi}-{self.lo} on this path'))
-                    st.pend = (f,) + key
-                    st.pend_inv = st.inv
+                    st.pend = (f,) + key + (st.inv,)
                     st.inv = False
                 else:
                     st.pend = None
             else:
-                st.pend = (f,) + key
-                st.pend_inv = st.inv
+                st.pend = (f,) + key + (st.inv,)
                 st.inv = st.inv and self.nonneg(F.strip_casts(rhs))
             if f == 'H':
                 st.hexp = None
@@ -291,6 +329,18 @@ class PairInv:
                 ln = F.ex[F.strip_casts(nd['c'][0])]
                 if ln['k'] == 'ref':
                     st.ub.pop(ln['decl'].get('id'), None)
+                    if nd['op'] in ('pre--', 'post--'):
+                        st.nn = st.nn - {ln['decl'].get('id')}
+        elif nd['k'] == 'call' and nd['callee'].get('d') == 'memset' and len(nd.get('c', [])) >= 2:
+            a0 = F.ex[F.strip_casts(nd['c'][0])]
+            z = F.ex[F.strip_casts(nd['c'][1])]
+            if a0['k'] == 'ref' and str(a0.get('t', '')).replace('struct ', '').replace(' ', '') == self.rec + '*' and \
+                    z['k'] == 'int' and z['v'] == 0:
+                st.hexp = st.lexp = '0'
+                st.inv = True
+                st.touched = True
+                st.pend = None
+                self.kill_field_bounds(st)
         elif nd['k'] == 'decl':
             for v in nd.get('vars', []):
                 if v.get('init') is not None and 'id' in v:
@@ -300,6 +350,7 @@ class PairInv:
                         st.ub[v['id']] = frozenset(b)
                     else:
                         st.ub.pop(v['id'], None)
+                    st.nn = (st.nn | {v['id']}) if self.is_nn(st, v['init']) else (st.nn - {v['id']})
 
     def refine(self, st, cond, truth):
         F = self.F
@@ -307,6 +358,10 @@ class PairInv:
         nd = F.ex[c]
         if nd['k'] == 'un' and nd['op'] == '!':
             return self.refine(st, nd['c'][0], not truth)
+        if nd['k'] == 'ref' and nd['decl'].get('kind') in ('var', 'param') and not truth:
+            vid = nd['decl']['id']            # if(x) false: x == 0
+            st.ub[vid] = frozenset(set(st.ub.get(vid, ())) | {(0, 0, 0)})
+            return st
         if nd['k'] != 'bin' or nd['op'] not in ('<', '<=', '>', '>='):
             return st
         op = nd['op']
@@ -325,6 +380,11 @@ class PairInv:
             return st
         an = F.ex[F.strip_casts(a)]
         eb = self.exact(b)
+        bn = F.ex[F.strip_casts(b)]
+        # c <= x / c < x with a constant c >= 0 (from `x<0` being false, `x>=0`, `x>0` being true)
+        if bn['k'] == 'ref' and bn['decl'].get('kind') in ('var', 'param') and an['k'] == 'int' and \
+                (an['v'] >= 0 if op == '<=' else an['v'] >= -1):
+            st.nn = st.nn | {bn['decl']['id']}
         if an['k'] == 'ref' and an['decl'].get('kind') in ('var', 'param'):
             vid = an['decl']['id']
             new = set(self.ubs(st, b))
@@ -380,6 +440,7 @@ class PairInv:
                         work.append(s)
         self.problems = []
         self.stores = 0
+        self.amount_nn = {}
         # final pass: collect problems and exit states with the stable inputs
         for b in sorted(inn):
             st = inn[b].copy()
